@@ -23,6 +23,7 @@ import (
 type vChildWrite struct {
 	toErr bool
 	text  string
+	env   string // when set: the child prints the value of this environment variable (and a newline) instead of text
 }
 
 var vChild struct {
@@ -45,8 +46,18 @@ func VerifOverrideCmdRun(c *exec.Cmd) error {
 		if w.toErr {
 			dst = c.Stderr
 		}
+		text := w.text
+		if w.env != "" {
+			// what a child sees: the last assignment of the variable in its environment
+			text = "\n"
+			for _, kv := range c.Env {
+				if len(kv) > len(w.env) && kv[:len(w.env)+1] == w.env+"=" {
+					text = kv[len(w.env)+1:] + "\n"
+				}
+			}
+		}
 		if dst != nil {
-			_, _ = dst.Write([]byte(w.text))
+			_, _ = dst.Write([]byte(text))
 		}
 	}
 	if vChild.cancelWhileRunning {
@@ -66,9 +77,13 @@ func VerifOverrideCmdRun(c *exec.Cmd) error {
 func vShellScript() string {
 	var sb strings.Builder
 	for _, w := range vChild.writes {
-		sb.WriteString("printf '")
-		sb.WriteString(strings.ReplaceAll(w.text, "\n", "\\n"))
-		sb.WriteString("'")
+		if w.env != "" {
+			sb.WriteString("printf '%s\\n' \"$" + w.env + "\"")
+		} else {
+			sb.WriteString("printf '")
+			sb.WriteString(strings.ReplaceAll(w.text, "\n", "\\n"))
+			sb.WriteString("'")
+		}
 		if w.toErr {
 			sb.WriteString(" >&2")
 		}
@@ -113,6 +128,8 @@ func (r *seqLoggers) add(toErr bool, args []interface{}) {
 }
 func (r *seqLoggers) Log(output ...interface{})   { r.add(false, output) }
 func (r *seqLoggers) LogError(err ...interface{}) { r.add(true, err) }
+
+const vEnvName, vEnvValue = "VERIF_EXTRA", "from-the-caller"
 
 const (
 	vMsgStart   = "<<start>>"
@@ -174,7 +191,11 @@ func vExpectedLines(toErr bool) []string {
 	var stream []byte
 	for _, w := range vChild.writes {
 		if w.toErr == toErr {
-			stream = append(stream, w.text...)
+			if w.env != "" {
+				stream = append(stream, vEnvValue+"\n"...)
+			} else {
+				stream = append(stream, w.text...)
+			}
 		}
 	}
 	return nonEmptyLines(stream)
@@ -197,7 +218,15 @@ func VerifC18_Execute() {
 	}
 	vChild.ctx = ctx
 	rec := &seqLoggers{}
-	p, err := New(ctx, rec, vMsgStart, vMsgSuccess, vMsgFailure, "/bin/sh", "-c", vShellScript())
+	var p *Subprocess
+	var err error
+	if verif.Bool("withExtraEnvironment") {
+		// the child reports a variable the caller added to its environment
+		vChild.writes = append([]vChildWrite{{env: vEnvName}}, vChild.writes...)
+		p, err = NewWithEnvironment(ctx, rec, []string{vEnvName + "=" + vEnvValue}, vMsgStart, vMsgSuccess, vMsgFailure, "/bin/sh", "-c", vShellScript())
+	} else {
+		p, err = New(ctx, rec, vMsgStart, vMsgSuccess, vMsgFailure, "/bin/sh", "-c", vShellScript())
+	}
 	verif.Assert("constructor", err == nil && p != nil)
 	err = p.Execute()
 
